@@ -22,7 +22,8 @@ IN = "INP"
 G1 = ["~id:a~ $[*][ yes() ]", "$[*][no()]", "~ name: third ~ $[1-2][#x == \"y\"]"]
 G2 = ["~ name: x\n id: b ~\n$[1*][\n #a == \"1\" ~inner~\n]", "~id:a~ $[*][yes()]", "~Id: c ~ $[2][yes()]"]
 G3 = ["~id:a~ $[*][   yes()\n ]", "$[*][no()]", "~ name: third ~ $[1-2][#x  ==  \"y\"]"]   # differs from G1 only by blanks inside a csvpath
-GROUPS = {"G1": G1, "G2": G2, "G3": G3}
+G4 = ["~id: ü1~ $[*][yes()]", "~ name: größe ~ $[1][yes()]", "~ id: 名前 ~ $[2][no()]"]   # identities are not ASCII-only
+GROUPS = {"G1": G1, "G2": G2, "G3": G3, "G4": G4}
 
 
 def ids_of(group):
@@ -32,7 +33,7 @@ def ids_of(group):
         if p.lstrip().startswith("~"):
             c = p[p.index("~") + 1: p.index("~", p.index("~") + 1)]
             import re
-            for m in re.finditer(r"([A-Za-z]+)\s*:\s*([A-Za-z0-9]+)", c):
+            for m in re.finditer(r"([^\W\d_]+)\s*:\s*(\w+)", c):
                 md[m.group(1)] = m.group(2)
         ident = ""
         for k in ("id", "Id", "ID", "name", "Name", "NAME"):
@@ -170,6 +171,8 @@ CURATED = [
     (("add", "g", "G2"), ("new",), ("add", "g", "G3")),
     (("add", "g", "G1"), ("add", "h", "G2"), ("add", "g", "G2")),
     (("add", "g", "G1"), ("add", "g", "G1"), ("add", "g", "G3")),
+    (("add", "g", "G4"),),
+    (("add", "g", "G1"), ("add", "g", "G4"), ("new",)),
 ]
 
 
@@ -243,7 +246,7 @@ def run(idx, rep, tier):
     pr = idx.cls("PathsRegistrar")
     for m in ("register_complete", "metadata_update", "manifest_path", "_fingerprint", "update_manifest_if"):
         rep.analysed(pr.methods[m])
-    n, msg = run_sequences(idx, 3 if tier == "thorough" else 2, extra=() if tier == "thorough" else CURATED)
+    n, msg = run_sequences(idx, 3 if tier == "thorough" else 2, extra=CURATED)
     rep.check(msg is None, "R1", "csvpath/managers/paths/paths_manager.py::named-paths store sequences", msg or f"{n} operation sequences", "csvpath/managers/paths/paths_manager.py")
     rep.stats["table_rows"] = n
     rep.stats["exhaustive"] = True
